@@ -494,20 +494,34 @@ func (lsm *LSM) Get(key []byte) (*kv.Entry, error) {
 		return entry.Value != nil || entry.Meta != 0 || entry.ExpiresAt != 0
 	}
 
+	// A newer version of the key may sit in an older source (a write at a
+	// lower version can arrive later: rollback records, value-log GC
+	// rewrites). Keep the hit with the greatest version <= the requested one
+	// over every memtable (newest first, the first one wins ties) and every
+	// level; only an exact version match cannot be improved.
+	want := kv.ParseTs(key)
+	var best *kv.Entry
 	for _, mt := range tables {
 		if mt == nil {
 			continue
 		}
 		entry, err := mt.Get(key)
-		if isMemHit(entry) {
-			return entry, err
+		if err == nil && isMemHit(entry) && (best == nil || entry.Version > best.Version) {
+			if best != nil {
+				best.DecrRef()
+			}
+			best = entry
+			if best.Version == want {
+				return best, nil
+			}
+			continue
 		}
 		if entry != nil {
 			entry.DecrRef()
 		}
 	}
 	// query from the level manager
-	return lsm.levels.Get(key)
+	return lsm.levels.getNewerThan(key, best)
 }
 
 // Prefetch warms cache layers for the key by issuing targeted block loads.
